@@ -26,6 +26,10 @@ type wop struct {
 	Stream bool  // Writer + chunks + Close instead of Write
 	Text   bool  // message type
 	Chunks []int // chunk sizes (Write: one chunk)
+	// Abandon (Stream only): the message's own context is cancelled after the
+	// chunks and before Close; the task goes on with its next message whatever
+	// Close answers. Later messages of the task use a context with a 1 s deadline.
+	Abandon bool
 }
 
 type c05Params struct {
@@ -46,6 +50,17 @@ type c05Params struct {
 	// GiveUp: once the first bytes are on the wire, a Ping whose context is
 	// cancelled at 500 ms waits for the frame lock (and gives up).
 	GiveUp bool
+}
+
+func (p c05Params) abandons() bool {
+	for _, prog := range p.Writers {
+		for _, op := range prog {
+			if op.Abandon {
+				return true
+			}
+		}
+	}
+	return false
 }
 
 type wres struct {
@@ -113,16 +128,26 @@ func c05Setup(prm c05Params) func(c *fw.Ctx, name string) explore.Setup {
 				for ti, prog := range prm.Writers {
 					ti, prog := ti, prog
 					w.GoHarness(fmt.Sprintf("writer%d", ti), true, func() {
+						abandoned := false
 						for mi, op := range prog {
 							m := st.find(ti, mi)
 							typ := websocket.MessageBinary
 							if op.Text {
 								typ = websocket.MessageText
 							}
+							ctx := ctxs[ti]
+							var cancelOwn vctx.CancelFunc
+							if op.Abandon {
+								ctx, cancelOwn = vctx.WithCancel(ctx)
+							} else if abandoned {
+								var cancelT vctx.CancelFunc
+								ctx, cancelT = vctx.WithTimeout(ctx, time.Second)
+								defer cancelT()
+							}
 							if !op.Stream {
-								m.err = conn.Write(ctxs[ti], typ, m.payload)
+								m.err = conn.Write(ctx, typ, m.payload)
 							} else {
-								wr, err := conn.Writer(ctxs[ti], typ)
+								wr, err := conn.Writer(ctx, typ)
 								if err == nil {
 									off := 0
 									for _, ch := range op.Chunks {
@@ -132,6 +157,10 @@ func c05Setup(prm c05Params) func(c *fw.Ctx, name string) explore.Setup {
 											break
 										}
 									}
+									if op.Abandon {
+										cancelOwn()
+										abandoned = true
+									}
 									if err == nil {
 										err = wr.Close()
 									}
@@ -139,7 +168,7 @@ func c05Setup(prm c05Params) func(c *fw.Ctx, name string) explore.Setup {
 								m.err = err
 							}
 							m.done = true
-							if m.err != nil {
+							if m.err != nil && !op.Abandon {
 								return
 							}
 						}
@@ -373,7 +402,7 @@ func c05Oracle(c *fw.Ctx, w *vs.World, name string, prm c05Params, st *c05State)
 	// without a closer or cancellation every write must succeed (a Ping that gives
 	// up may have been inside its own frame write when its context ended, which
 	// closes the connection as documented)
-	if prm.Closer == "" && !(prm.GiveUp && st.p.Closed) {
+	if prm.Closer == "" && !(prm.GiveUp && st.p.Closed) && !prm.abandons() {
 		for _, wm := range st.msgs {
 			if wm.err != nil {
 				violate(c, w, name, pp+"/write-failed-without-close/"+prm.Name+"/"+role, fmt.Sprintf("writer %d message %d failed: %v", wm.task, wm.idx, wm.err))
@@ -665,6 +694,13 @@ func c01Scenarios(tier string) []scenario {
 	// block is being streamed (the held-back tail of the stream belongs to the open message)
 	for _, k := range []connCfg{{Client: false, Flate: true, Thr: 1}, {Client: true, Flate: true, Thr: 1, CNCT: true, SNCT: true}} {
 		prm := c05Params{Prop: "C01", Name: "W2-big", K: k, Writers: [][]wop{{{Stream: true, Chunks: []int{70000, 10}}}, {{Text: true, Chunks: []int{10}}}}}
+		scs = append(scs, scenario{Name: prm.Name + "/" + k.String(), Cfg: explore.Config{P: p, Horizon: 60e9}, Setup: c05Setup(prm)})
+	}
+	// a streamed message is abandoned (its context ends before Close) and the same
+	// goroutine goes on to write the next message: whatever the abandoned Close and the
+	// next Write answer, the peer never receives a message that was not written
+	for _, k := range []connCfg{{Client: false, Flate: true, Thr: 1}, {Client: true, Flate: true, Thr: 1, CNCT: true, SNCT: true}, {Client: true}, {Client: false}} {
+		prm := c05Params{Prop: "C01", Name: "WA", K: k, Writers: [][]wop{{{Stream: true, Chunks: []int{600}, Abandon: true}, {Text: true, Chunks: []int{700}}}}}
 		scs = append(scs, scenario{Name: prm.Name + "/" + k.String(), Cfg: explore.Config{P: p, Horizon: 60e9}, Setup: c05Setup(prm)})
 	}
 	for _, k := range []connCfg{{Client: true}, {Client: false}} {
